@@ -7,7 +7,7 @@ for d in seeded/*/; do
   s=$(basename $d); id=${s%%-*}
   [ -f $d/patch.diff ] || continue
   [ -z "$(git -C /repo status --porcelain)" ] || { echo "/repo not clean"; exit 2; }
-  git -C /repo apply $d/patch.diff || { echo "$s: patch does not apply"; fail=1; continue; }
+  git -C /repo apply "$PWD/$d/patch.diff" || { echo "$s: patch does not apply"; fail=1; continue; }
   timeout 3000 bin/gosymx -prop $id -tier quick -noevidence > work/seedall_$s.log 2>&1; rc=$?
   git -C /repo checkout -- .
   echo "$s rc=$rc $(grep -c '^VIOLATION' work/seedall_$s.log) violations"
